@@ -107,6 +107,9 @@ class NadaFunction(Generic[T, R]):
         )
 
     def __call__(self, *args, **kwargs) -> R:
+        if kwargs:
+            # Keyword arguments take the position of the parameter they name.
+            args = inspect.signature(self.function).bind_partial(*args, **kwargs).args
         return self.return_type(
             child=NadaFunctionCall(self, args, source_ref=SourceRef.back_frame())
         )
